@@ -268,8 +268,8 @@ Lemma iargs_mono ev : (forall e w v w', ev e w = IOk v w' -> ext w w') ->
 Proof.
   intros Hev. induction l as [|a r IH]; simpl; intros w vs w' H.
   - inversion H. apply ext_refl.
-  - destruct (ev a w) as [v w1| | |] eqn:E1; simpl in H; try discriminate.
-    destruct (iargs_with ev r w1) as [vs1 w2| | |] eqn:E2; simpl in H; try discriminate.
+  - destruct (ev a w) as [v w1| | | |?] eqn:E1; simpl in H; try discriminate.
+    destruct (iargs_with ev r w1) as [vs1 w2| | | |?] eqn:E2; simpl in H; try discriminate.
     inversion H; subst. eapply ext_trans; [eapply Hev; exact E1|eapply IH; exact E2].
 Qed.
 
@@ -279,7 +279,7 @@ Definition ifor_mono_at (fuel : nat) := forall idx i hi body w c w', ifor fns fu
 
 Ltac ib H := match type of H with
   | ibind ?r _ = IOk _ _ => let v := fresh "v" in let w := fresh "w" in let E := fresh "E" in
-      destruct r as [v w| | |] eqn:E; simpl in H; try discriminate
+      destruct r as [v w| | | |?] eqn:E; simpl in H; try discriminate
   end.
 
 Lemma mono_all : forall fuel, ieval_mono_at fuel /\ iexec_mono_at fuel /\ ifor_mono_at fuel.
@@ -310,6 +310,16 @@ Proof.
         { eapply ext_trans; [exact X|]. destruct Y as [l Hl]. exists l. simpl in *. exact Hl. }
         destruct v1; inversion H; subst; exact Z.
       * ib H. eapply ext_trans; [eapply IHe; eauto|]. destruct (truthy v0); eapply IHe; eauto.
+      * (* array literal *)
+        destruct es as [|a r]; [inversion H; apply ext_refl|].
+        ib H. ib H. unfold i_arr in H. destruct (ints_of v1); inversion H; subst.
+        eapply ext_trans; [eapply IHe; exact E|]. eapply (iargs_mono _ IHe (a :: r)); exact E0.
+      * (* at *)
+        ib H. ib H. eapply ext_trans; [eapply IHe; exact E|]. eapply ext_trans; [eapply IHe; exact E0|].
+        unfold i_at in H. destruct v1; try (inversion H; subst; apply ext_refl).
+        destruct v0; try (inversion H; subst; apply ext_refl). destruct (arr_get l z); inversion H; subst; apply ext_refl.
+      * (* array_length *)
+        ib H. inversion H; subst. eapply IHe; eauto.
     + red. intros s w c w' H. destruct s; simpl in H.
       * inversion H; apply ext_refl.
       * ib H. pose proof (IHs _ _ _ _ E) as X. destruct v; try (inversion H; subst; exact X).
@@ -324,8 +334,8 @@ Proof.
         { eapply ext_trans; [exact X|]. destruct Y as [l Hl]. exists l. exact Hl. }
         destruct v0; try (inversion H; subst; exact Z); (eapply ext_trans; [exact Z|eapply IHs; eauto]).
       * ib H. ib H. pose proof (ext_trans _ _ _ (IHe _ _ _ _ E) (IHe _ _ _ _ E0)) as X.
-        destruct v as [a| | |]; try (inversion H; subst; exact X).
-        destruct v0 as [b| | |]; try (inversion H; subst; exact X).
+        destruct v as [a| | | |]; try (inversion H; subst; exact X).
+        destruct v0 as [b| | | |]; try (inversion H; subst; exact X).
         eapply ext_trans; [exact X|]. destruct (IHf _ _ _ _ _ _ _ H) as [l Hl]. exists l. exact Hl.
       * inversion H; apply ext_refl.
       * inversion H; apply ext_refl.
